@@ -147,6 +147,8 @@ func (server *httpServer) handleHttpRequest(conn net.Conn) string {
 	conn.SetReadDeadline(time.Now().Add(httpReadTimeout))
 	section := 0
 	scanner := bufio.NewScanner(conn)
+	// A body without CRLF is a single token: allow it to be as long as the accepted content length
+	scanner.Buffer(make([]byte, 0, 4096), maxContentLength+4096)
 	scanner.Split(func(data []byte, atEOF bool) (int, []byte, error) {
 		found := bytes.Index(data, []byte(crlf))
 		if found >= 0 {
